@@ -74,8 +74,18 @@ class _Dead(Exception):
 
 
 class FaultyFileIO(io.FileIO):
-    def __init__(self, path, mode, closefd=True):
+    _plain = False
+
+    def __init__(self, path, mode, closefd=True, opener=None):
         plan = PLAN[0]
+        if opener is not None:
+            # (tempfile) the opener decides which file this is: if it went through the layer's os.open and the path
+            # is governed, that open has been counted and the descriptor is adopted; else this is an ordinary file
+            super().__init__(path, mode, closefd=closefd, opener=opener)
+            p = plan.fds.pop(self.fileno(), None)
+            self._plain = p is None
+            self._path = p or str(path)
+            return
         if isinstance(path, int):
             # a descriptor that came from the layer's os.open: that open has been counted already
             self._path = plan.fds.pop(path)
@@ -111,6 +121,8 @@ class FaultyFileIO(io.FileIO):
 
     def write(self, b):
         plan = PLAN[0]
+        if self._plain or plan is None:
+            return super().write(b)
         if plan.dead:
             return len(b)
         if plan.hook:
@@ -142,7 +154,7 @@ class FaultyFileIO(io.FileIO):
         if self.closed:
             return super().close()
         plan = PLAN[0]
-        if plan is None or plan.dead:
+        if plan is None or plan.dead or self._plain:
             return super().close()
         if plan.hook:
             try:
@@ -181,11 +193,14 @@ def _governed(path):
 
 
 def fake_open(file, mode="r", buffering=-1, encoding=None, errors=None, newline=None, closefd=True, opener=None):
-    if not any(c in mode for c in "wax+") or opener is not None or _governed(file) is None:
-        return REAL["open"](file, mode, buffering, encoding, errors, newline, closefd, opener)
     plan = PLAN[0]
+    if not any(c in mode for c in "wax+") or plan is None or (opener is None and _governed(file) is None):
+        return REAL["open"](file, mode, buffering, encoding, errors, newline, closefd, opener)
     raw_mode = "".join(c for c in mode if c in "wax+r")
-    raw = FaultyFileIO(file, raw_mode, closefd) if isinstance(file, int) else FaultyFileIO(file, raw_mode)
+    if opener is not None:
+        raw = FaultyFileIO(file, raw_mode, closefd, opener)
+    else:
+        raw = FaultyFileIO(file, raw_mode, closefd) if isinstance(file, int) else FaultyFileIO(file, raw_mode)
     if buffering == 0:
         if "b" not in mode:
             raw.close()
